@@ -39,6 +39,7 @@ def run_tie(rng_tag, sources, timeout_per_job=4.0):
         rec["imp"] = "(imp 1)" in fr
         rec["safe"] = "(safe 1)" in fr
         rec["cov"] = "(cov 1)" in fr
+        rec["total"] = "(total 1)" in fr
         rec["kfree"] = "ok" if "(kfree ok)" in fr else "crash" if "(kfree crash)" in fr else "other"
         rec["ands"] = {c: (rec["rust"][c] or "").count("(a ") for c in ("dedup", "nodedup")}
         m = ml.get(rec["mid"], "(no-result)")
@@ -107,7 +108,8 @@ def tie_pass(ck, sources, max_programs=150, tag="tie"):
         "tied_programs": tied, "covered_program (TSem = Sem.v proved: full fragment or scalar fragment with calls)": sum(1 for r in recs if r.get("cov")),
         "in_imperative_scalar_fragment (TSem = Sem.v proved)": imp,
         "in_data_movement_class (zero AND gates proved)": len(kfree),
-        "safe_program_ok (TSem never crashes, declared output size: proved)": sum(1 for r in recs if r.get("safe"))}
+        "safe_program_ok (TSem never crashes, declared output size: proved)": sum(1 for r in recs if r.get("safe")),
+        "circuit theorem unconditional (safe_program_ok && params_ok && fuel_enough: TSem defined on every input, proved)": sum(1 for r in recs if r.get("total"))}
     ck.coverage["lowering_tie"] = {"candidates": len(recs), "by_status": cnt, "gates_tied": sum(r.get("gates", 0) for r in recs),
                                    "rule": "typed AST exported from the real checker -> extracted Lower.lower_program -> circuit "
                                            "compared for equality with the real compiler's Circuit{input_gates,gates,output_gates}"}
